@@ -572,6 +572,18 @@ fn apply<S: StrLike>(slot: &mut Option<S>, world: u8, act: SAct) -> Obs {
             for b in o.st().bytes() {
                 obs.n(b as i64);
             }
+            // the two halves are independent strings: edit the head while the tail is alive, then read the tail
+            // again (and the other way round)
+            s.s_push_str("é!");
+            s.s_insert(0, 'x');
+            obs.n(fold_str(o.st()));
+            let mut o = o;
+            o.s_push('€');
+            obs.n(fold_str(s.st()));
+            let _ = s.s_pop();
+            let _ = s.s_pop();
+            let _ = s.s_remove(0);
+            obs.n(fold_str(o.st()));
             drop(o);
         }
         SAct::ExtendChars { s: k } => s.s_extend_chars(POOL[k as usize], world),
